@@ -403,6 +403,14 @@ def strings_and_comparisons():
         Func("main", [], "int", [Println(Call("fa", ULit("A.P", [("v", I(1)), ("w", I(2))]))), Println(Call("fa", ULit("A.Q", [("w", I(3))]))),
                                  Println(Call("fb", ULit("B.R", [("w", I(4)), ("v", I(5))]))), Println(Call("fb", ULit("B.S", [("v", I(6))]))), Ret(I(0))])],
         structs=STRUCTS + [("Pair", [("w", "int"), ("v", "int")])], enums=ENUMS, unions=UNIONS + ua)
+    out["struct_alias_then_set"] = prog([Println(Call("fa", I(1))), Println(Call("fs", I(4)))],
+        [Func("fa", [("k", "int")], "int", [Let("p", "Point", SLit("Point", [("x", V("k")), ("y", I(2))]), True), Let("q", "Point", V("p")),
+                                            Set("p", SLit("Point", [("x", I(50)), ("y", I(60))])), Let("r", "Point", SLit("Point", [("x", I(7)), ("y", I(8))])),
+                                            Ret(Bin("+", Field(V("q"), "x"), Bin("+", Field(V("r"), "y"), Field(V("p"), "x"))))]),
+         Func("fs", [("k", "int")], "int", [Let("p", "Point", SLit("Point", [("x", V("k")), ("y", I(2))]), True), Set("p", V("p")), Set("p", V("p")), Ret(Field(V("p"), "x"))])])
+    out["break_in_match_in_while"] = prog([Let("k", "int", I(0), True), While(Bin("<", V("k"), I(3)), [Set("k", Bin("+", V("k"), I(1))), Let("s", "Shape", ULit("Shape.Circle", [("r", V("k"))])),
+                                           Match(V("s"), [("Shape.Circle", "c", [Println(Field(V("c"), "r")), If(Bin("==", V("k"), I(1)), [Break()], [])]), ("Shape.Rect", "q", [Println(I(0))]), ("Shape.Empty", "e", [Println(I(0))])])]),
+                                           Println(S("after"))])
     out["cmp_of_cmp"] = prog([Let("a", "int", Call("t", I(3))), Let("b", "int", Call("t", I(4))), Let("c", "int", Call("t", I(9))),
                               Println(Bin("==", Bin("==", V("a"), V("b")), Bin("==", V("c"), I(9)))), Println(Bin("==", Bin("<", V("a"), V("b")), Bin(">", V("c"), I(2)))),
                               Println(Bin("!=", Bin("==", V("a"), V("b")), B(True))), Println(Bin("and", Bin("==", Bin("<", V("a"), V("b")), B(True)), Bin("!=", Bin(">=", V("a"), V("b")), B(True))))])
